@@ -49,6 +49,9 @@ def _bare_where(repo, key, nm='mask', depth=0):
                 vals += [a_ for a_ in (e.data.get('kwargs') or {}).values() if a_ is not None]
         for c, _, _ in p.conds:
             vals.append(c)
+        for lp in getattr(p.state, 'loops', []) or []:
+            # what an accumulation starts from is part of the result
+            vals += [v for v in (lp.get('pre') or {}).values() if isinstance(v, (Poly, Tup))]
         for v in vals:
             if v is not None and _bare_use(v, nm, repo, depth):
                 return fmt(v)[:120]
